@@ -755,21 +755,29 @@ impl DebugSession {
     }
 
     fn create_machine(&mut self, adapter: Box<dyn MachineAdapter + Send + Sync>) {
-        if let Some(cg) = adapter.codegen() {
+        // An adapter that brings its own codegen context (the test runner) has already told that context how to read
+        // its memory, in a way that is safe to use from the machine's own thread. Going through the adapter's lock
+        // instead makes an `.assert ram(..)` that the machine evaluates wait for whoever holds that lock - a
+        // `pause` or `step` request that in turn waits for the machine.
+        let own_codegen = adapter.codegen();
+        let has_own_codegen = own_codegen.is_some();
+        if let Some(cg) = own_codegen {
             self.codegen = Some(cg);
         } else {
             self.codegen = self.lsp.lock().unwrap().codegen();
         }
         let adapter = Arc::new(RwLock::new(adapter));
 
-        if let Some(codegen) = &self.codegen {
-            let mut codegen = codegen.lock().unwrap();
-            ensure_ram_fn(
-                &mut codegen,
-                Box::new(MachineAdapterMemoryAccessor {
-                    adapter: adapter.clone(),
-                }),
-            );
+        if !has_own_codegen {
+            if let Some(codegen) = &self.codegen {
+                let mut codegen = codegen.lock().unwrap();
+                ensure_ram_fn(
+                    &mut codegen,
+                    Box::new(MachineAdapterMemoryAccessor {
+                        adapter: adapter.clone(),
+                    }),
+                );
+            }
         }
 
         self.machine = Some(Machine::new(adapter));
